@@ -6,17 +6,20 @@ use super::super::syntax::*;
 
 pub fn sizes(thorough: bool) -> Vec<usize> { if thorough { vec![254, 255, 256, 257, 300, 1000] } else { vec![255, 256, 257, 300] } }
 
-/// programs at the 16-bit boundaries of the format: the widest frame a call can have (1 parameter +
-/// 65535 locals = 65536 slots; every local assigned / all of them in a branch that is not taken), and a
-/// constant pool whose indices exceed 32767 (sign) with the highest ones in use
+/// programs in the upper half of the 16-bit ranges of the format: a call frame of 60 001 slots (1
+/// parameter + 60 000 locals; every local assigned / all of them in a branch that is not taken) and a
+/// constant pool whose indices exceed 32767 (sign) with the highest ones in use. Deliberately NOT at
+/// the exact maximum: where exactly an implementation stops accepting programs is its own business (a
+/// frame one slot larger than needed is a legitimate choice - benign/extra-unused-local); the exact
+/// limits are exercised by C11, which only demands the same answer in every run and build profile.
 pub fn programs_u16() -> Vec<(String, Vec<E>)> {
     let mut out: Vec<(String, Vec<E>)> = vec![];
-    let n = 65535usize;
+    let n = 60_000usize;
     let lets = |last: E| { let mut b: Vec<E> = (0..n).map(|i| let_(&format!("v{}", i), int((i % 10) as i32))).collect(); b.push(last); block(b) };
-    out.push(("frame of 65536 slots, every local assigned".to_string(), vec![print("before\\n", vec![]),
+    out.push(("frame of 60001 slots, every local assigned".to_string(), vec![print("before\\n", vec![]),
         fun("wide", &["p"], lets(binop("+", binop("+", var("p"), var("v0")), var(&format!("v{}", n - 1))))),
         print("~\\n", vec![call("wide", vec![int(7)])]), print("after\\n", vec![])]));
-    out.push(("frame of 65536 slots, locals in a branch not taken".to_string(), vec![print("before\\n", vec![]),
+    out.push(("frame of 60001 slots, locals in a branch not taken".to_string(), vec![print("before\\n", vec![]),
         fun("wide", &["p"], if_(E::Bool(false), lets(E::Null), Some(int(7)))),
         print("~\\n", vec![call("wide", vec![int(1)])]), print("after\\n", vec![])]));
     let mut p: Vec<E> = vec![let_("t", int(0))];
